@@ -53,6 +53,7 @@ class FrameSpec:
     animals: list = field(default_factory=list)
     video: int = 0
     frame_idx: int = 0
+    undershoot: float = 0.0   # > 0: the ideal maps of this frame dip to about -undershoot away from a bump
 
 
 class Scene:
@@ -219,10 +220,106 @@ class IdealNet(torch.nn.Module):
                         xv, yv = make_grid_vectors(Hin, Win, self.os)
                         cm = torch.zeros((1, 1, yv.shape[0], xv.shape[0]), dtype=torch.float32)
                 entries.append({"code": fr.code, "a": a, "eff": eff, "hw": (Hin, Win)})
+            if fr.undershoot:
+                # realistic network undershoot: a small negative plateau around every bump (channels of
+                # invisible nodes stay identically zero); the argmax does not move
+                vis = (cm.amax(dim=(-2, -1), keepdim=True) > 0).to(cm.dtype)
+                cm = cm - float(fr.undershoot) * (1.0 - cm) * vis
             out.append(cm)
         cms = torch.cat(out, dim=0)
         self.log.append(entries)
         self.cms_log.append(cms.detach().cpu().numpy().astype(np.float64))
+        return cms
+
+
+class ModeNet(torch.nn.Module):
+    """A stub network with mode-dependent layers: ideal-map renderer → BatchNorm2d → Dropout.
+
+    In eval mode with fresh running statistics both layers are the identity (eps is tiny), so the
+    network is the ideal one.  In train mode BatchNorm normalises with the statistics of the frames /
+    crops sharing the batch and updates its running statistics, Dropout zeroes random cells: the
+    output for a frame then depends on batch-mates, batch size, order and call history.  Every
+    forward records the mode it ran in (`mode_log`): "inference runs the network in eval mode" is an
+    observable obligation, not an assumption."""
+
+    def __init__(self, inner: torch.nn.Module, channels: int, head: str = None, p: float = 0.25):
+        super().__init__()
+        self.inner = inner
+        self.head = head           # for dict outputs (bottom-up): the head the layers act on
+        self.bn = torch.nn.BatchNorm2d(channels, eps=1e-12, momentum=0.1, affine=False)
+        self.drop = torch.nn.Dropout(p)
+        self.mode_log = []
+
+    # the harness reads the renderer's logs through the wrapper
+    @property
+    def log(self):
+        return self.inner.log
+
+    @property
+    def cms_log(self):
+        return self.inner.cms_log
+
+    def attach(self, module):
+        return self.inner.attach(module)
+
+    def stats(self):
+        return (self.bn.running_mean.clone(), self.bn.running_var.clone(), int(self.bn.num_batches_tracked))
+
+    def train_step(self, seed=0):
+        """a forward in train mode through the mode-dependent layers (what one training step does to
+        them): running statistics move away from (0, 1); the module is left in train mode"""
+        self.train()
+        g = torch.Generator().manual_seed(seed)
+        with torch.no_grad():
+            self.bn(0.3 * torch.rand(4, self.bn.num_features, 8, 8, generator=g))
+
+    def apply_history(self, history: str):
+        if history == "fresh":
+            pass                          # a freshly built / freshly loaded module (training flag True)
+        elif history == "eval_set":
+            self.eval()                   # control: the caller did everything right
+        elif history == "train_after_build":
+            self.eval()
+            self.train()                  # fine-tuning / active-learning loop on the same objects
+        elif history == "after_train_forward":
+            self.train_step()
+        else:
+            raise ValueError(history)
+
+    def forward(self, x):
+        self.mode_log.append(bool(self.training))
+        out = self.inner(x)
+        if isinstance(out, dict):
+            out = dict(out)
+            out[self.head] = self.drop(self.bn(out[self.head]))
+            return out
+        return self.drop(self.bn(out))
+
+
+HISTORIES = ("fresh", "eval_set", "train_after_build", "after_train_forward")
+
+
+class UndershootNet(torch.nn.Module):
+    """Adds the small negative undershoot of `IdealNet` (frames with `undershoot > 0`) to the maps of
+    another stub (e.g. harness/c03.py's bottom-up stub): sample `b` of the batch dips to about
+    `-us[b]` away from its bumps."""
+
+    def __init__(self, inner, us, head=None):
+        super().__init__()
+        self.inner, self.us, self.head = inner, list(us), head
+
+    def forward(self, x):
+        out = self.inner(x)
+        cms = out[self.head] if isinstance(out, dict) else out
+        cms = cms.clone()
+        for b, u in enumerate(self.us):
+            if u:
+                vis = (cms[b].amax(dim=(-2, -1), keepdim=True) > 0).to(cms.dtype)
+                cms[b] = cms[b] - float(u) * (1.0 - cms[b]) * vis
+        if isinstance(out, dict):
+            out = dict(out)
+            out[self.head] = cms
+            return out
         return cms
 
 
@@ -361,12 +458,14 @@ def _wrap_keep(net: IdealNet):
 
 
 def build_single(scene, skeletons, *, scale, os_, max_stride, max_hw, batch_size, refinement,
-                 threshold=0.2, sigma=1.5):
+                 threshold=0.2, sigma=1.5, mode_layers=False):
     """REAL SingleInstancePredictor around an ideal-network stub."""
     from sleap_nn.inference.predictors import SingleInstancePredictor
     cfg = mk_config("single_instance", scale=scale, max_stride=max_stride, output_stride=os_,
                     max_height=max_hw[0], max_width=max_hw[1], sigma=sigma)
     net = _wrap_keep(IdealNet(scene, "single", os_, sigma=sigma, scale=scale, max_hw=max_hw))
+    if mode_layers:
+        net = ModeNet(net, scene.n_nodes)
     p = SingleInstancePredictor(confmap_config=cfg, confmap_model=net, backbone_type="unet",
                                 skeletons=skeletons, peak_threshold=threshold,
                                 integral_refinement=refinement, batch_size=batch_size,
@@ -375,7 +474,7 @@ def build_single(scene, skeletons, *, scale, os_, max_stride, max_hw, batch_size
 
 
 def build_topdown(scene, skeletons, *, sc, os_c, ms_c, si, os_i, ms_i, crop_hw, max_hw, batch_size,
-                  refinement, max_instances=None, threshold=0.2, sigma=1.5, is_rgb=False):
+                  refinement, max_instances=None, threshold=0.2, sigma=1.5, is_rgb=False, mode_layers=False):
     """REAL TopDownPredictor (CentroidCrop + FindInstancePeaks + TopDownInferenceModel) around two
     ideal-network stubs; the crop-stage stub is attached to the real FindInstancePeaks by a
     forward-pre-hook."""
@@ -387,6 +486,8 @@ def build_topdown(scene, skeletons, *, sc, os_c, ms_c, si, os_i, ms_i, crop_hw, 
                      is_rgb=is_rgb)
     cnet = _wrap_keep(IdealNet(scene, "centroid", os_c, sigma=sigma, scale=sc, max_hw=max_hw))
     inet = _wrap_keep(IdealNet(scene, "centered", os_i, sigma=sigma, scale=si, max_hw=max_hw))
+    if mode_layers:
+        cnet, inet = ModeNet(cnet, 1), ModeNet(inet, scene.n_nodes)
     p = TopDownPredictor(centroid_config=ccfg, confmap_config=icfg, centroid_model=cnet, confmap_model=inet,
                          centroid_backbone_type="unet", centered_instance_backbone_type="unet",
                          skeletons=skeletons, peak_threshold=threshold, integral_refinement=refinement,
